@@ -227,10 +227,7 @@ func (w *c01World) worker(id int, rng *rand.Rand, nOps, keys int, faults bool) {
 		switch {
 		case p < 30: // put
 			v := int(w.ver.Add(1))
-			n := 1 + rng.IntN(w.maxBody)
-			if rng.IntN(4) == 0 {
-				n = 16 * (1 + rng.IntN(64))
-			}
+			n := c01bodyLen(k, v, w.maxBody) // the length is a function of (key, version): a reader can tell a cut body
 			body := rig.Body(k, v, n)
 			var src io.Reader = &slowReader{data: body, rng: rng, chunk: 1 + rng.IntN(4096)}
 			failing := false
@@ -299,6 +296,8 @@ func (w *c01World) worker(id int, rng *rand.Rand, nOps, keys int, faults bool) {
 	}
 }
 
+func c01bodyLen(k, v, maxBody int) int { return 1 + (v*7919+k*104729)%maxBody }
+
 type slowReader struct {
 	data  []byte
 	pos   int
@@ -343,6 +342,8 @@ func (w *c01World) checkRead(ev c01Ev, k int, data []byte, rerr error, meta *cac
 		bad = "metadata-of-other-key"
 	case len(data) >= 8 && bv.V != obj.V&0xffff:
 		bad = "metadata-version-mismatch"
+	case obj.V > 0 && len(data) != c01bodyLen(k, obj.V, w.maxBody):
+		bad = "stored-body-cut-or-padded"
 	}
 	if bad == "" {
 		return
